@@ -3,7 +3,7 @@
    serde's tag / content strings. *)
 From Coq Require Import String Lia ZifyBool ZifyN.
 From TS Require Import Model.Str Model.Outcome Model.Unicode Model.Syntax Model.Attrs Model.TargetOs
-                       Model.Rename Model.Types Model.Parse Model.Lang.Decl.
+                       Model.Rename Model.Types Model.Parse Model.Reconcile Model.Lang.Decl.
 From TS Require Import Spec.SerdeCase Spec.C16Spec Spec.Serde Spec.TargetOsRule Spec.C03Spec Spec.C02Spec.
 From TS Require Import Proofs.C16 Proofs.C13 Proofs.FrontAttrs Proofs.FrontTypes Proofs.FrontItems.
 Local Open Scope N_scope.
@@ -188,4 +188,30 @@ Proof.
     rewrite (trim_key uc Huc t (c02_ident_ok_key t Htag)), (trim_key uc Huc c (c02_ident_ok_key c Hcontent)).
     reflexivity.
 Qed.
+
+(* the hypotheses of the source-level statement give those of the IR-level (back-end) statements *)
+Theorem C02_front_bridge l acr attrs ident gens vs e :
+  parse_enum uc tstr T attrs ident gens vs = Ok (ItEnum e) ->
+  dom_C02 uc T attrs vs = true ->
+  known_C02 l acr uc T attrs vs = None ->
+  c02_expect_src uc T attrs vs = Some (c02_expect_ir e) /\
+  dom_C02_back (c02_expect_ir e) = true /\ known_C02_back l acr (c02_expect_ir e) = None.
+Proof.
+  intros Hp Hd Hk. unfold dom_C02 in Hd. apply andb_true_iff in Hd as [Hlex Hd]. unfold known_C02 in Hk.
+  destruct (known_C02_front T attrs vs) eqn:Hf; [discriminate|].
+  pose proof (C02_front attrs ident gens vs e Hp Hlex Hf) as Hx. rewrite Hx in Hd, Hk. auto.
+Qed.
 End U.
+
+(* reconcile (reconcile.rs: rewriting of renamed type references inside payload types) leaves the
+   expectation of an enum untouched: identifiers, wire names, payload kinds and keys are not types *)
+Definition c02_reconciled cn rn im (e : renum) : renum :=
+  match e with
+  | EUnit sh => EUnit (check_eshared cn rn im sh)
+  | EAlgebraic t c sh => EAlgebraic t c (check_eshared cn rn im sh)
+  end.
+Theorem C02_reconcile_preserves cn rn im e : c02_expect_ir (c02_reconciled cn rn im e) = c02_expect_ir e.
+Proof.
+  destruct e as [sh|t c sh]; unfold c02_expect_ir; cbn [c02_reconciled enum_shared check_eshared evariants];
+    rewrite !map_map; f_equal; try (apply map_ext; intros v; destruct v; reflexivity).
+Qed.
